@@ -13,19 +13,20 @@ HINT_RULES = [(r'hint_bit_unpack::<2>', 12), (r'hint_bit_pack::<false, 2>', 258)
 
 def harness_list(tier, seed=0):
     """measured on this machine (7 in parallel): hint window 11-14 min, all-bytes bijections 10-17 min, adjacent-pair round trips 7-8 min,
-    hint re-pack > 30 min.  Quick tier = one hint window (offset by seed) + two round trips + the t1 bijection; thorough = everything."""
+    hint re-pack > 30 min.  Quick tier (must stay well below 15 min): E2 layout + hint loop-step lemmas, one adjacent-pair round trip (by seed) and the native codec
+    differential in parallel; thorough = every window, the K = 3 count harness, all bijections and round trips."""
     hs = []
     wins = ['c08_hint_window_0', 'c08_hint_window_2', 'c08_hint_window_4']
-    quick_wins = [wins[seed % 3]]
+    quick_wins = []      # quick tier: the loop-step lemmas (K, omega symbolic) decide the hint decoder; the windows run in the thorough tier or when the lemmas refuse
     for n in (wins if tier == 'thorough' else quick_wins):
         hs.append(Harness('verif_kani::c08::' + n, 'C08', timeout=2400, loop_rules=HINT_RULES[:1],
                           bounds='K=2, omega=8; both count bytes + 4 consecutive index bytes symbolic (all 2^48 values), strictly increasing concrete background; hint loops unwound 12x, 256-loops 258x, unwinding assertions on'))
     bij = [('c08_bitpack_t1', 'all 2^2560 byte strings of a t1 polynomial'), ('c08_bitpack_t0', 'all byte strings of a t0 polynomial'),
            ('c08_bitpack_z17', 'all byte strings of a z polynomial (gamma1 = 2^17)'), ('c08_bitpack_z19', 'all byte strings of a z polynomial (gamma1 = 2^19)')]
-    for n, b in (bij if tier == 'thorough' else bij[:1]):
+    for n, b in (bij if tier == 'thorough' else []):
         hs.append(Harness('verif_kani::c08::' + n, 'C08', timeout=3000, mem_gb=16, bounds=b + '; decoded index and re-encoded byte index symbolic'))
     rts = ['c08_roundtrip_eta2', 'c08_roundtrip_eta4', 'c08_roundtrip_w1_44', 'c08_roundtrip_w1_65', 'c08_roundtrip_t0']
-    for n in (rts if tier == 'thorough' else [rts[seed % 2], rts[2 + seed % 2]]):
+    for n in (rts if tier == 'thorough' else [rts[seed % 4]]):
         hs.append(Harness('verif_kani::c08::' + n, 'C08', timeout=2400, bounds='two adjacent symbolic in-range coefficients at a symbolic position, zeros elsewhere'))
     if tier == 'thorough':
         hs.append(Harness('verif_kani::c08::c08_hint_k3_counts', 'C08', timeout=3000, loop_rules=[(r'hint_bit_unpack::<3>', 10)],
@@ -78,7 +79,13 @@ def run(run, scr, tier, seed, only=None):
             run.violation('layout-' + lbad[0]['name'][:50], f'{lbad[0]["name"]}: {lbad[0]["detail"][:300]}; confirmed natively: {conf[0]}', path)
         else:
             run.inconclusive.append(f'layout obligation fails but the differential tests agree with the reference: {lbad[0]["name"]}: {lbad[0]["detail"][:200]}')
-    if any(r['verdict'] == 'refused' and r['name'].startswith('hint_bit_unpack') for r in lres) and tier != 'thorough':
+    import concurrent.futures
+    pool = concurrent.futures.ThreadPoolExecutor(max_workers=1)
+    fut_native = pool.submit(native, scr)
+    refused_hint = any(r['verdict'] == 'refused' and r['name'].startswith('hint_bit_') for r in lres)
+    if refused_hint and tier != 'thorough' and 'fail' in fut_native.result()[0].values():
+        refused_hint = False        # the native differential already reproduces a failure: no need for the slow window harnesses
+    if refused_hint and tier != 'thorough':
         # the loop lemmas (K, omega symbolic) do not apply to a restructured decoder: all window harnesses decide instead of the seed-selected one
         have = {h.name for h in hs}
         for n in ('c08_hint_window_0', 'c08_hint_window_2', 'c08_hint_window_4'):
@@ -88,7 +95,7 @@ def run(run, scr, tier, seed, only=None):
     results = vlib.run_kani(scr, hs, jobs=7)
     run.add_kani_results(results)
     # every run also executes the native codec differential (real (K, omega), every malformation class): cheap, and it is what confirms a solver counterexample
-    res0, msgs0 = native(scr)
+    res0, msgs0 = fut_native.result()
     run.add_query({'name': 'native codec differential at the real (K, omega): real decoders / encoders vs spec-literal Algorithms 16-21 on structured malformed inputs', 'engine': 'native (confirmation workload)', 'verdict': 'holds' if set(res0.values()) == {'pass'} else 'sat', 'detail': msgs0[:3], 'trivial': True}, core=False)
     if 'fail' in res0.values() and not any(r.status == 'failed' for r in results):
         path = vlib.save_replay('C08', 'native', {'property': 'C08', 'kind': 'codec', 'native': res0, 'msgs': msgs0[:6]})
